@@ -39,7 +39,13 @@ RULE = (
     "(identity, jittered identity, x0.5, x3, shear, rotate+far shift, central blow-up, fold, collapse to a line, "
     "collapse to a point) is pushed through relocated_grid_from (outliers substituted for non-border points), "
     "relocated_mesh_grid_from (full outlier / on-border / interior vertex menu) and, for two transforms, through "
-    "mesh.Rectangular / mesh.Delaunay / mesh.Voronoi mapper_grids_from with and without the relocator; non-trivial = the border "
+    "mesh.relocated_grid_from and mesh.Rectangular / mesh.Delaunay / mesh.Voronoi mapper_grids_from with and without the "
+    "relocator (same mesh objects, default preloads), then a third transform through the same entry points: call k must "
+    "relocate the grid of call k (own-grid relocation law; a result that is bitwise an earlier call's result for a different "
+    "grid is reported as `second-call-different-grid`); finally an INTEGER-dtype source plane (24 x pixel-unit sub-grid "
+    "under a seed-drawn integer linear map + shift, 12 integer outliers (9 seed-rotated + 3 lattice directions) substituted for non-border "
+    "points, integer mesh vertices: outliers, border points, interior points) through relocated_grid_from, "
+    "relocated_mesh_grid_from and the mesh entry points, classes suffixed `:int-dtype`; non-trivial = the border "
     "has >= 3 points and in this case some point was pulled inward AND some point lying outside the smallest border "
     "radius was legitimately left where it was (its nearest border point is not closer to the centroid)"
 )
@@ -53,11 +59,17 @@ ASSUMPTIONS = [
     "nearest border point is unique; the un-jittered identity keeps the ties, where either radius is accepted)",
     "one (seed-chosen) anisotropic pixel scale and non-zero origin per run: geometry enters the sub-grid affinely",
     "FREE pixels (on the outer row/column, no masked in-array neighbour) may or may not be border pixels (C10 latitude)",
+    "integer-dtype inputs: the law is about VALUES; the dtype of the output is not prescribed (an integer output whose "
+    "values obey the law - e.g. nothing had to move - passes, a truncated one fails the radius / on-ray clauses)",
+    "Delaunay and Voronoi share Triangulation.mapper_grids_from: both are run for the two main transforms, one of them "
+    "(chosen by the parity of the number of unmasked pixels) for the third call or the integer grid",
+    "the repeated relocated_mesh_grid_from call on the previous transform's grid (relocator reuse) uses every 3rd vertex",
 ]
 BOUNDS = {
     "quick": "all masks of all frames with <= 9 cells (3 187 masks, incl. 1xN, Nx1, 3x3) + all 511 masks of the 3x3 "
     "interior of a 5x5 frame, each x 5 sub-size maps; all 8 190 masks of the 3x4 and 4x3 frames x 2 sub-size maps "
-    "(uniform 2, per-pixel A); x 10 source-plane transforms x (data grid + 50..80 mesh vertices) ",
+    "(uniform 2, per-pixel A); x (10 float source-plane transforms + 1 integer-dtype source plane) x (data grid + 50..80 "
+    "mesh vertices); mesh entry points called 3-4 times per mesh object inside one case",
     "thorough": "quick + all masks of the 2x5, 5x2, 2x6, 6x2, 3x4, 4x3 frames x 5 sub-size maps + all 65 535 masks of the "
     "4x4 frame x 2 sub-size maps (uniform 2, per-pixel A) + all 65 535 masks of the 4x4 interior of a 6x6 frame x uniform "
     "1; x 10 source-plane transforms",
@@ -66,6 +78,9 @@ BOUNDS = {
 SUBMAPS = ["u1", "u2", "u3", "pA", "pB"]
 TRANSFORMS = ["id", "idj", "mag0.5", "mag3", "shear", "rotshift", "blowup", "fold", "line", "point"]
 MAPPER_TRANSFORMS = ("shear", "blowup")
+THIRD_TRANSFORM = "mag3"
+# integer source planes: 24 x (pixel-unit sub-grid) is integer for every sub-size <= 4; integer maps with det != 0
+INT_MAPS = [((1, 0), (0, 1)), ((1, 1), (0, 2)), ((2, -1), (1, 1)), ((0, -1), (1, 0)), ((3, 1), (-1, 2))]
 
 PS_MENU = [(1.0, 2.0), (0.7, 0.7), (0.05, 0.1), (2.0, 0.5), (0.3, 1.7)]
 OR_MENU = [(0.5, -1.0), (0.0, 0.0), (-0.25, 3.0), (10.0, 0.125), (-1.3, -0.7)]
@@ -189,16 +204,20 @@ class Stats:
         self.moved = self.kept_outside = self.interior = self.ties = self.points = 0
 
 
-def check_relocation(v, site, B, P, Q, st, ctx):
-    """All clauses of the relocation law for input P -> output Q against border point set B."""
+def check_relocation(v, site, B, P, Q, st, ctx, suffix=""):
+    """All clauses of the relocation law for input P -> output Q against border point set B.
+
+    `suffix` is appended to every finding class (":int-dtype" for integer-dtype inputs: there the dtype of the output is
+    not prescribed - the VALUES decide, an output that inherits the integer dtype truncates every moved point)."""
     P = np.asarray(P, dtype=float)
     Q = np.asarray(Q)
     if not v.ok(
-        Q.shape == P.shape and Q.dtype.kind == "f",
-        site + ":count-order",
+        Q.shape == P.shape and (Q.dtype.kind == "f" or (suffix and Q.dtype.kind in "iu")),
+        site + ":count-order" + suffix,
         lambda: "%s output shape %s dtype %s for input shape %s" % (ctx(), Q.shape, Q.dtype, P.shape),
     ):
         return
+    Q = Q.astype(float)
     if P.shape[0] == 0:
         return
     c = np.array([np.mean(B[:, 0]), np.mean(B[:, 1])])
@@ -216,7 +235,6 @@ def check_relocation(v, site, B, P, Q, st, ctx):
     # expected radius for each accepted nearest border point: min(own radius, its radius)
     E = np.minimum(rb[None, :], rp[:, None])
     err = np.where(cand, np.abs(E - rq[:, None]), np.inf).min(axis=1)
-    e_first = E[np.arange(P.shape[0]), np.argmin(D, axis=1)]
 
     same = np.all(Q == P, axis=1)
     on_border_min = np.zeros(P.shape[0], dtype=bool)
@@ -251,6 +269,7 @@ def check_relocation(v, site, B, P, Q, st, ctx):
 
     # a permutation / shift of an otherwise correct output is an order defect, not a radius defect
     if (bad_ray | bad_rad).any():
+        e_first = E[np.arange(P.shape[0]), np.argmin(D, axis=1)]
         with np.errstate(invalid="ignore", divide="ignore"):
             f = np.where(rp > 0, e_first / np.where(rp > 0, rp, 1.0), 1.0)
         X = c[None, :] + f[:, None] * (P - c[None, :])
@@ -259,15 +278,15 @@ def check_relocation(v, site, B, P, Q, st, ctx):
             Q[np.lexsort((Q[:, 1], Q[:, 0]))], X[np.lexsort((X[:, 1], X[:, 0]))], rtol=0, atol=tol * 10
         ):
             k = int(np.flatnonzero(bad_ray | bad_rad)[0])
-            v.fail(site + ":count-order", lambda: desc(k, "outputs are a permutation of the expected outputs"))
+            v.fail(site + ":count-order" + suffix, lambda: desc(k, "outputs are a permutation of the expected outputs"))
             return
 
     def one(bad, cls, what):
         if bad.any():
             k = int(np.flatnonzero(bad)[0])
-            v.ok(False, site + ":" + cls, lambda: desc(k, what))
+            v.ok(False, site + ":" + cls + suffix, lambda: desc(k, what))
         else:
-            v.ok(True, site + ":" + cls)
+            v.ok(True, site + ":" + cls + suffix)
 
     one(bad_int, "interior-changed", "r_in <= r_min (or the point IS the innermost border point) but the point changed")
     one(bad_ray, "off-ray", "output is not on the ray centroid -> input")
@@ -432,6 +451,51 @@ def run_case(case):
     rect = aa.mesh.Rectangular(shape=(3, 3))
     tri_meshes = [("Delaunay", aa.mesh.Delaunay()), ("Voronoi", aa.mesh.Voronoi())]
 
+    # every data grid returned by a mesh entry point in THIS case: (input grid, returned grid, description)
+    earlier = []
+
+    def stale_source(keep_, Qa):
+        """Description of an earlier call of this case, made with a DIFFERENT data grid, whose result `Qa` is bitwise."""
+        for kin, kout, what in earlier:
+            if kout.shape == Qa.shape and not (kin.shape == keep_.shape and np.array_equal(kin, keep_)) and np.array_equal(kout, Qa):
+                return what
+        return None
+
+    def check_mesh_data_grid(site, what, B_, keep_, got, ctx_, suffix=""):
+        """Data grid returned by a mesh entry point (mapper_grids_from / mesh.relocated_grid_from, default preloads):
+        the relocation law against the call's OWN grid; a result that breaks it and is bitwise the result of an earlier
+        call with a different grid is reported once, as the history defect it is."""
+        Qa = np.asarray(got)
+        Qf = Qa.astype(float) if Qa.dtype.kind in "fiu" else Qa
+        src = stale_source(keep_, Qf)
+        if src is not None:
+            tmp = V(ID)
+            check_relocation(tmp, site, B_, keep_, Qa, Stats(), ctx_, suffix)
+            if tmp.violations:
+                v.ok(False, site + ":second-call-different-grid",
+                     lambda: "%s: %s returned, bit for bit, the relocated grid of the earlier call %s instead of relocating the grid it "
+                     "was given (%s)" % (ctx_(), what, src, tmp.violations[0]["msg"][:250]))
+                return None  # consequences (mesh vertices relocated against that grid's border) are not reported again
+        if earlier:
+            v.ok(True, site + ":second-call-different-grid")
+        check_relocation(v, site, B_, keep_, Qa, st, ctx_, suffix)
+        if Qf.shape == keep_.shape:
+            earlier.append((keep_, Qf.copy(), what))
+        return Qa
+
+    def check_untouched(site, keep_, got, ctx_, extra_ok=True):
+        """border_relocator=None: the data grid comes back bit for bit."""
+        Qa = np.asarray(got)
+        same = dom.exact(Qa, keep_)
+        if not same and Qa.dtype.kind in "fiu":
+            for kin, kout, what in earlier:
+                if kout.shape == Qa.shape and np.array_equal(kout, Qa.astype(float)):
+                    v.ok(False, site + ":data-grid:second-call-different-grid",
+                         lambda: "%s: call with border_relocator=None returned, bit for bit, the relocated grid of the earlier call %s" % (ctx_(), what))
+                    return
+        v.ok(same and extra_ok, site + ":no-relocator", lambda: "%s grids changed although border_relocator=None" % ctx_())
+
+    saved = {}
     prev = None
     for ti, tid in enumerate(TRANSFORMS):
         rs = dom.rng(seed, "c18", tid, H, W, sm)
@@ -457,20 +521,27 @@ def run_case(case):
         # grid PASSED IN, also when the last data grid this relocator relocated was a different one
         if prev is not None:
             Bp, keepp, Mvp, tidp = prev
+            Mvp = Mvp[::3]  # which border is used shows on any handful of outliers
             outp = br.relocated_mesh_grid_from(grid=aa.Grid2DIrregular(values=keepp.copy()), mesh_grid=aa.Grid2DIrregular(values=Mvp.copy()))
             check_relocation(v, "relocated_mesh_grid_from", Bp, Mvp, np.asarray(outp), st,
                              lambda: "%s transform=%s (relocator last used on transform=%s)" % (desc(), tidp, tid))
         prev = (B, keep, Mv, tid)
+        if tid == THIRD_TRANSFORM:
+            saved[tid] = (B, keep, Mv)
 
         if tid in MAPPER_TRANSFORMS:
             if sm == "u1":
                 dgrid = lambda: aa.Grid2D(values=keep.copy(), mask=mask)
             else:
                 dgrid = lambda: aa.Grid2DIrregular(values=keep.copy())
+            # the mesh's own entry point (default preloads): call k must relocate the grid of call k
+            got = rect.relocated_grid_from(border_relocator=br, source_plane_data_grid=dgrid())
+            check_mesh_data_grid("mesh.relocated_grid_from", "mesh.relocated_grid_from(transform=%s)" % tid, B, keep, got, ctx)
             # Rectangular
             mg = rect.mapper_grids_from(mask=mask, source_plane_data_grid=dgrid(), border_relocator=br)
+            check_mesh_data_grid("mapper_grids_from:Rectangular:data-grid", "Rectangular.mapper_grids_from(transform=%s)" % tid,
+                                 B, keep, mg.source_plane_data_grid, ctx)
             rq = np.asarray(mg.source_plane_data_grid)
-            check_relocation(v, "mapper_grids_from:Rectangular:data-grid", B, keep, rq, st, ctx)
             mesh = mg.source_plane_mesh_grid
             if rq.shape == keep.shape:
                 ext = _rect_extent(mesh)
@@ -483,11 +554,7 @@ def run_case(case):
                     % (ctx(), ext, want),
                 )
             mg0 = rect.mapper_grids_from(mask=mask, source_plane_data_grid=dgrid(), border_relocator=None)
-            v.ok(
-                dom.exact(np.asarray(mg0.source_plane_data_grid), keep),
-                "mapper_grids_from:Rectangular:no-relocator",
-                lambda: "%s data grid changed although border_relocator=None" % ctx(),
-            )
+            check_untouched("mapper_grids_from:Rectangular", keep, mg0.source_plane_data_grid, ctx)
             # Delaunay / Voronoi (shared Triangulation.mapper_grids_from): data grid and mesh vertices
             for mname, tmesh in tri_meshes:
                 site = "mapper_grids_from:%s" % mname
@@ -497,20 +564,43 @@ def run_case(case):
                     border_relocator=br,
                     source_plane_mesh_grid=aa.Grid2DIrregular(values=Mv.copy()),
                 )
-                check_relocation(v, site + ":data-grid", B, keep, np.asarray(mg.source_plane_data_grid), st, ctx)
-                check_relocation(v, site + ":mesh-grid", B, Mv, np.asarray(mg.source_plane_mesh_grid), st, ctx)
+                if check_mesh_data_grid(site + ":data-grid", "%s.mapper_grids_from(transform=%s)" % (mname, tid), B, keep, mg.source_plane_data_grid, ctx) is not None:
+                    check_relocation(v, site + ":mesh-grid", B, Mv, np.asarray(mg.source_plane_mesh_grid), st, ctx)
                 mg0 = tmesh.mapper_grids_from(
                     mask=mask,
                     source_plane_data_grid=dgrid(),
                     border_relocator=None,
                     source_plane_mesh_grid=aa.Grid2DIrregular(values=Mv.copy()),
                 )
-                v.ok(
-                    dom.exact(np.asarray(mg0.source_plane_data_grid), keep)
-                    and dom.exact(np.asarray(mg0.source_plane_mesh_grid), Mv),
-                    site + ":no-relocator",
-                    lambda: "%s grids changed although border_relocator=None" % ctx(),
-                )
+                check_untouched(site, keep, mg0.source_plane_data_grid, ctx, dom.exact(np.asarray(mg0.source_plane_mesh_grid), Mv))
+
+    # ------------------------------------------------------------------ third call through the mesh entry points
+    # (same process, same mesh objects, default preloads, a third data grid)
+    if THIRD_TRANSFORM in saved:
+        B, keep, Mv = saved[THIRD_TRANSFORM]
+        tid = THIRD_TRANSFORM
+        ctx = lambda: "%s transform=%s (third call through the mesh entry points)" % (desc(), tid)
+        if sm == "u1":
+            dgrid = lambda: aa.Grid2D(values=keep.copy(), mask=mask)
+        else:
+            dgrid = lambda: aa.Grid2DIrregular(values=keep.copy())
+        got = rect.relocated_grid_from(border_relocator=br, source_plane_data_grid=dgrid())
+        check_mesh_data_grid("mesh.relocated_grid_from", "mesh.relocated_grid_from(transform=%s)" % tid, B, keep, got, ctx)
+        mg = rect.mapper_grids_from(mask=mask, source_plane_data_grid=dgrid(), border_relocator=br)
+        check_mesh_data_grid("mapper_grids_from:Rectangular:data-grid", "Rectangular.mapper_grids_from(transform=%s)" % tid,
+                             B, keep, mg.source_plane_data_grid, ctx)
+        Mv3 = Mv[::5]
+        # Delaunay and Voronoi share Triangulation.mapper_grids_from: one of them, here (odd number of unmasked pixels) or
+        # on the integer grid (even number)
+        for mname, tmesh in (tri_meshes[(n // 2) % 2:][:1] if n % 2 == 1 else ()):
+            site = "mapper_grids_from:%s" % mname
+            mg = tmesh.mapper_grids_from(mask=mask, source_plane_data_grid=dgrid(), border_relocator=br,
+                                         source_plane_mesh_grid=aa.Grid2DIrregular(values=Mv3.copy()))
+            if check_mesh_data_grid(site + ":data-grid", "%s.mapper_grids_from(transform=%s)" % (mname, tid), B, keep, mg.source_plane_data_grid, ctx) is not None:
+                check_relocation(v, site + ":mesh-grid", B, Mv3, np.asarray(mg.source_plane_mesh_grid), st, ctx)
+
+    # ------------------------------------------------------------------ integer-dtype coordinates
+    run_int_dtype(aa, v, br, mask, m, sm, seed, Gp, sbs, nonborder, rect, tri_meshes, st, desc, check_mesh_data_grid)
 
     # cached state must still denote the same border after use
     v.ok(
@@ -523,6 +613,71 @@ def run_case(case):
     bucket = lambda x: "0" if x == 0 else ("1-9" if x < 10 else ("10-99" if x < 100 else "100+"))
     v.outcome = "nb=%d|moved=%s|kept-outside=%s|ties=%s" % (min(len(sbs), 8), bucket(st.moved), bucket(st.kept_outside), bucket(st.ties))
     return v.result()
+
+
+def run_int_dtype(aa, v, br, mask, m, sm, seed, Gp, sbs, nonborder, rect, tri_meshes, st, desc, check_mesh_data_grid):
+    """Source-plane coordinates given with INTEGER dtype (`aa.Grid2DIrregular(values=[(6, 4), (-5, 9)])` keeps int64):
+    the law is the same, outliers land ON their ray at the nearest-border radius (not at its truncation)."""
+    H, W = m.shape
+    rs = dom.rng(seed, "c18-int", H, W, sm)
+    Gi = np.rint(24.0 * Gp)
+    if float(np.max(np.abs(Gi - 24.0 * Gp))) > 1e-9:
+        raise RuntimeError("harness: 24 x pixel-unit sub-grid is not integer")
+    A = np.array(INT_MAPS[int(rs.randint(0, len(INT_MAPS)))], dtype=np.int64)
+    Si = Gi.astype(np.int64) @ A.T + rs.randint(-30, 31, size=2)
+    Bf = Si[sbs].astype(float)
+    c = np.array([np.mean(Bf[:, 0]), np.mean(Bf[:, 1])])
+    rb = radii(Bf, c)
+    rmin, rmax = float(rb.min()), float(rb.max())
+    unit = rmax if rmax > 0 else 24.0
+    phi = float(rs.uniform(0.0, 2 * math.pi))
+    fac = (1.3, 50.0, 2.0)
+    out = []
+    for k in range(9):
+        a = phi + 2 * math.pi * k / 9
+        out.append(np.rint(c + fac[k % 3] * unit * np.array([math.sin(a), math.cos(a)])))
+    for dy, dx in ((1, 0), (0, -1), (-1, 2)):  # axis / lattice directions
+        out.append(np.rint(c) + np.array([dy, dx]) * math.ceil(1.5 * unit + 1))
+    inner = [np.rint(c)]
+    for k in range(3):
+        a = phi + 0.4 + 2 * math.pi * k / 3
+        inner.append(np.rint(c + 0.5 * rmin * np.array([math.sin(a), math.cos(a)])))
+    out = np.array(out).astype(np.int64)
+    inner = np.array(inner).astype(np.int64)
+    slots = nonborder[1::2] if len(nonborder) > 1 else nonborder
+    for q, k in enumerate(slots[: len(out)]):
+        Si[k] = out[q]
+    Bf = Si[sbs].astype(float)
+    keep = Si.astype(float)
+    Mi = np.concatenate([out, Si[sbs], inner, Si[: min(2, len(Si))]], axis=0)
+    Mf = Mi.astype(float)
+    ctx = lambda: "%s integer-dtype source plane %s" % (desc(), Si.tolist())
+    suffix = ":int-dtype"
+
+    def igrid():
+        # (a library that converts integer input to float on construction is equally fine: the values decide)
+        return aa.Grid2DIrregular(values=Si.copy())
+
+    out_d = br.relocated_grid_from(grid=igrid())
+    check_relocation(v, "relocated_grid_from", Bf, keep, np.asarray(out_d), st, ctx, suffix)
+    out_m = br.relocated_mesh_grid_from(grid=igrid(), mesh_grid=aa.Grid2DIrregular(values=Mi.copy()))
+    check_relocation(v, "relocated_mesh_grid_from", Bf, Mf, np.asarray(out_m), st, ctx, suffix)
+    if sm == "u1":
+        dgrid = lambda: aa.Grid2D(values=Si.copy(), mask=mask)  # a slim integer array keeps its dtype here too
+    else:
+        dgrid = igrid
+    mg = rect.mapper_grids_from(mask=mask, source_plane_data_grid=dgrid(), border_relocator=br)
+    check_mesh_data_grid("mapper_grids_from:Rectangular:data-grid", "Rectangular.mapper_grids_from(integer grid)", Bf, keep,
+                         mg.source_plane_data_grid, ctx, suffix)
+    n = int((~m).sum())
+    if n % 2 == 1:
+        return
+    mname, tmesh = tri_meshes[(n // 2) % 2]
+    site = "mapper_grids_from:%s" % mname
+    mg = tmesh.mapper_grids_from(mask=mask, source_plane_data_grid=dgrid(), border_relocator=br,
+                                 source_plane_mesh_grid=aa.Grid2DIrregular(values=Mi.copy()))
+    if check_mesh_data_grid(site + ":data-grid", "%s.mapper_grids_from(integer grid)" % mname, Bf, keep, mg.source_plane_data_grid, ctx, suffix) is not None:
+        check_relocation(v, site + ":mesh-grid", Bf, Mf, np.asarray(mg.source_plane_mesh_grid), st, ctx, suffix)
 
 
 def _rect_extent(mesh):
